@@ -63,7 +63,9 @@ LEVEL_TEXT = {
                 "returns the unique value whose base-256 digits are the bytes in that order, advances by exactly w, leaves the "
                 "cursor untouched and reports IntegerOverflow/SliceReadError exactly as specified otherwise; signed reads are "
                 "two's complement; from_ei_data truth tables; decode(encode v) = v for every width and both byte orders "
-                "(decodeLE_encodeLE, decodeBE_encodeBE, decode_encode: a window holding the w bytes of v in that order reads back v). "
+                "(decodeLE_encodeLE, decodeBE_encodeBE, decode_encode: a window holding the w bytes of v in that order reads back v); "
+                "native_is_target: over the cfg(target_endian) arms of NativeEndian regenerated from endian.rs, exactly one arm is active per target and it "
+                "aliases the fixed specification of that order. "
                 "Tied to endian.rs by differential runs of the real crate against "
                 "the executable model on generated reads (all five specs on the implementation side).",
         "note": COMMON_NOTE + " The model of safe_from! is hand-written (17 lines) and validated behaviourally, not generated.",
@@ -110,7 +112,11 @@ LEVEL_TEXT["C02"] = {
             "extension are exact; r_info (ELF32/64), st_info, st_other, version index/hidden and is_undefined split exactly as the ABI macros "
             "for every value; at structure level valsAt_encoded / parse_of_encoding: a window holding the ABI encoding of any in-range field "
             "values (each field in its width and the file's byte order, one after the other) parses back to the record built from exactly "
-            "those values and consumes exactly the structure's size. The translator and interpreter are validated against the compiled parsers on ABI-encoded field values.",
+            "those values and consumes exactly the structure's size. The derived accessors (is_undefined, st_symtype, st_bind, st_vis, version index/"
+            "local/global/hidden, d_val/d_ptr) are the translations of the Rust bodies, regenerated on every run; which fields each reads is part "
+            "of the translation, and the kernel evaluates each on every byte / every halfword against the ABI macro (st_byte_table, halfword_table, "
+            "decide +kernel over 256 and 65536 values), so the split theorems hold for every record and survive any semantically equal rewrite. "
+            "The translator and interpreter are validated against the compiled parsers on ABI-encoded field values; the acc stream varies every field of a symbol.",
     "note": COMMON_NOTE + " Reference layouts in Ref/AbiLayouts.lean are transcribed by hand from the gABI/GNU documents.",
     "technique": "Lean 4 proof over translator-generated parse programs (kernel decide vs ABI reference) + ABI-encoder round-trip oracle",
 }
@@ -134,7 +140,10 @@ LEVEL_TEXT["C03"] = {
             "SHT_NOBITS = empty; compressed = Chdr parsed at sh_offset plus payload [sh_offset+chdr_size, sh_offset+sh_size), error if shorter "
             "than the header; segment data = [p_offset, p_offset+p_filesz) and independent of p_memsz; typed views hand out section_data's "
             "window; string-table entries start at table.start+off in the same buffer; note names, descriptors and build-ids are exactly "
-            "the ABI-designated sub-windows of the note section/segment window (note_windows, typed_note_windows, with C14.parse_at_spec). Tied to the code by comparing (ptr-base,len) of every "
+            "the ABI-designated sub-windows of the note section/segment window (note_windows, typed_note_windows, with C14.parse_at_spec). "
+            "SectionHeader::get_data_range and ProgramHeader::get_file_data_range are translated from the Rust bodies on every run "
+            "(Generated/Accessors.lean; the parameter list of the translation says which header fields they read) and proved equal to the "
+            "model's range of (sh_offset, sh_size) / (p_offset, p_filesz) (section_range_is_offset_size, segment_range_is_offset_filesz). Tied to the code by comparing (ptr-base,len) of every "
             "returned slice with the model's window, and by an oracle recomputing the range from the parsed header.",
     "note": COMMON_NOTE,
     "technique": "Lean 4 proof over window-valued model + differential correspondence on pointer offsets",
